@@ -65,9 +65,27 @@ def make_serializer(tag):
     return mt._serializer
 
 
+class WorkerShutdown(BaseException):
+    """Not an Exception: what a worker thread being shut down (SystemExit, KeyboardInterrupt) sees inside a serializer."""
+
+
 def memory_run(plan_, nthreads, oplists, counters):
     logger = MemoryLogger()
     sers = [make_serializer(t) for t in range(nthreads)]
+    release = [not any("write_slow" in o for o in oplists)]
+
+    def slow(v):
+        # a serializer that takes arbitrarily long (the 'clock' thread K, whose sleep outlasts every timeout in the code under test,
+        # lets it go on): it runs inside the logger's lock, everybody else has to wait however long it takes
+        if not release[0]:
+            sched.wait_until(lambda: release[0])
+        return "slow:%s" % (v,)
+
+    def dying(v):
+        raise WorkerShutdown("worker shut down inside a serializer")
+    slow_ser = MessageType("wslow", [Field("seq", slow, ""), Field("b", slow, ""), Field.for_types("stag", [int], "")], "")._serializer
+    dying_ser = MessageType("wdying", [Field("seq", dying, ""), Field("b", dying, ""), Field.for_types("stag", [int], "")], "")._serializer
+    special = {100: slow_ser, 200: dying_ser}
     ser_tag = {id(s): t for t, s in enumerate(sers)}
     wrote = [[] for _ in range(nthreads)]
     results = [[] for _ in range(nthreads)]
@@ -100,6 +118,17 @@ def memory_run(plan_, nthreads, oplists, counters):
                     logger.write(m, sers[t])
                     wrote[t].append(seq)
                     seq += 1
+                elif op == "write_slow":
+                    m = {"seq": seq, "b": seq, "stag": 100, "message_type": "wslow", "task_uuid": "u", "task_level": [1], "timestamp": 1.0}
+                    logger.write(m, slow_ser)
+                    seq += 1
+                elif op == "write_base":
+                    m = {"seq": seq, "b": seq, "stag": 200, "message_type": "wdying", "task_uuid": "u", "task_level": [1], "timestamp": 1.0}
+                    try:
+                        logger.write(m, dying_ser)
+                    except WorkerShutdown:
+                        pass  # travels to the application, as any non-Exception does; the logger must stay consistent
+                    seq += 1
                 elif op == "tb":
                     try:
                         raise Flushable("t%d" % t)
@@ -122,8 +151,15 @@ def memory_run(plan_, nthreads, oplists, counters):
         return run
 
     sched.RELEASE_HOOKS[:] = [hook]
+    workers = {"T%d" % t: worker(t) for t in range(nthreads)}
+    if not release[0]:
+        def clock():
+            sched.sleep()
+            release[0] = True
+            sched.notify()
+        workers["K"] = clock
     try:
-        st, errs = sched.run_schedule(plan_, {"T%d" % t: worker(t) for t in range(nthreads)}, timeout=60.0)
+        st, errs = sched.run_schedule(plan_, workers, timeout=60.0)
     finally:
         sched.RELEASE_HOOKS[:] = []
     problems = list(hook_problems[:3])
@@ -148,6 +184,9 @@ def memory_run(plan_, nthreads, oplists, counters):
                 if isinstance(seq, str):  # serialized in place by validate()
                     seq = int(seq.rsplit(":", 1)[1])
                 per.setdefault(m["tag"], []).append(seq)
+            elif "stag" in m:
+                if s is not special.get(m["stag"]):
+                    problems.append("a message is paired with another message's serializer")
             elif s is not eliot._traceback.TRACEBACK_MESSAGE._serializer:
                 problems.append("traceback message paired with a foreign serializer")
         for t, seqs in per.items():
@@ -220,6 +259,18 @@ def run_memory(spec, res):
         # logger that already holds messages
         oplists = [["write", "write", "validate"], ["write", "serialize", "serialize"]] + [["serialize", "write"]] * (nthreads - 2)
         r0 = 2.0
+    slow_case = spec["i"] % 8 == 5
+    if slow_case:
+        # one thread sits inside write() for arbitrarily long (slow serializer, logical clock): the others must wait for it
+        oplists = [["write_slow"], rng.choice([["write", "serialize"], ["write", "write"], ["write", "reset"], ["serialize", "write"]])] + [["write"]] * (nthreads - 2)
+        r0 = 2.0
+    elif spec["i"] % 8 == 6:
+        # a non-Exception escaping a serializer in the middle of write(): the logger must stay consistent for everybody else
+        pool = ["write", "write_base", "write_base", "serialize", "reset"]
+        oplists = [[rng.choice(pool) for _ in range(rng.randint(1, 3))] for _ in range(nthreads)]
+        oplists[0][0] = "write_base"
+        oplists[-1].append("write")
+        r0 = 2.0
     if r0 == 2.0:
         pass
     elif r0 < 0.12 + 0.15:
@@ -245,7 +296,14 @@ def run_memory(spec, res):
         oplists[(0 if "validate" not in oplists[0] or len(oplists[0]) > 1 else 1) % nthreads].append("write")
     names = ["T%d" % t for t in range(nthreads)]
     orders = list(itertools.permutations(names)) if nthreads <= 3 else [tuple(rng.sample(names, nthreads)) for _ in range(6)]
+    if slow_case:
+        orders = [tuple(o) + ("K",) for o in orders]  # the clock has the lowest priority
+        names = names + ["K"]
     c = res["counters"]
+    if slow_case:
+        c["oplists_with_a_slow_lock_holder"] = c.get("oplists_with_a_slow_lock_holder", 0) + 1
+    if any("write_base" in o for o in oplists):
+        c["oplists_with_a_non_exception_inside_write"] = c.get("oplists_with_a_non_exception_inside_write", 0) + 1
     inside = 0
 
     def execute(plan_, label):
